@@ -32,7 +32,9 @@ EXHAUSTIVE_SUBSPACES = {"quick": ["all 256 %XX escapes in path/query/fragment/us
 TIERS = {"quick": dict(nshards=16, urls=2500, triples=900), "thorough": dict(nshards=48, urls=40000, triples=15000)}
 CH = ["a", "é", "☃", "😀", " ", "+", "&", "=", ";", ":", "@", "!", "$", "'", "(", ")", "*", ",", "~", ".", "-", "_", " ", " ", "%41", "%C3%A9", "%2F", "%25",
       "%FF", "%80", "%3F", "%23", "%26", "%3D", "%2B", "%40", "%3A", "%20", "%7E", "%e2%98%83", "%E2%82", "%F0%9F%98", "%E2", "%C3", "[", "]", "{", "|", "\\", "^", "`", "<", ">", '"', "ß", "İ"]
-HOSTS = [("ascii", "example.com"), ("idn", "☃.net"), ("puny", "xn--n3h.net"), ("ipv4", "127.0.0.1"), ("ipv6", "[::1]"), ("mixed", "EXAMPLE.com"), ("ascii", "a.b.c"), ("idn", "bücher.example")]
+HOSTS = [("ascii", "example.com"), ("idn", "☃.net"), ("puny", "xn--n3h.net"), ("ipv4", "127.0.0.1"), ("ipv6", "[::1]"), ("mixed", "EXAMPLE.com"), ("ascii", "a.b.c"), ("idn", "bücher.example"),
+         # labels that look like punycode but do not decode stay as they are, next to labels that do
+         ("badpuny", "xn--a-.example"), ("badpuny", "xn--n3h.xn--a-.net"), ("badpuny", "good.xn--zz--")]
 
 
 def shards(tier, seed):
